@@ -157,6 +157,16 @@ public:
 	    return false;
 	  }
 	const string output_body_file = dest_dir + output_basename;
+	if (storage.is_image_file(output_body_file))
+	  {
+	    // The disc may hold a file called (say) $.x.ssd; extracting
+	    // it into the directory holding the image x.ssd must not
+	    // overwrite the image we are reading.
+	    std::cerr << "refusing to extract " << output_origname
+		      << ": " << output_body_file
+		      << " is one of the image files\n";
+	    return false;
+	  }
 
 	std::ofstream outfile(output_body_file, std::ofstream::out);
 	if (!outfile.good())
